@@ -241,7 +241,23 @@ func TestC22(t *testing.T) {
 		default:
 			if atomic.LoadInt32(&fired) == 1 {
 				_, errs, _, _ := vReq.Snapshot()
-				if len(errs) == 0 {
+				failed := len(errs) > 0
+				if side == "responder" && !failed {
+					// the responder fails the request with a terminal failure status; a requestor whose own
+					// traversal had already completed (panic while handling the last block, after its data had
+					// left) legitimately ends without an error
+					for _, m := range w.Fab.Wire() {
+						if m.From != B.ID {
+							continue
+						}
+						for _, rs := range m.Responses {
+							if rs.ID == victimID && rs.Status.IsTerminal() && rs.Status != graphsync.RequestCompletedFull && rs.Status != graphsync.RequestCompletedPartial {
+								failed = true
+							}
+						}
+					}
+				}
+				if !failed {
 					rep.Violation(ci, "C22/no-error-for-panicking-request/"+site, fmt.Sprintf("the panic in the %s %s at block %d produced no error for the request", side, site, k), detail())
 				}
 				cbs := A.Panics()
